@@ -130,6 +130,20 @@ def _argext1(vals, is_max):
             if bool(v) == is_max:
                 return i
         return 0
+    if vals and any(isinstance(v, (SC, complex)) for v in vals):
+        # numpy orders complex numbers lexicographically (real part, then imaginary part)
+        from .scalars import as_sc
+        cv = [as_sc(v) for v in vals]
+        best = 0
+        for i in range(1, len(cv)):
+            a, b = cv[i], cv[best]
+            if is_max:
+                c = S.sym_or(a.re > b.re, S.sym_and(a.re == b.re, a.im > b.im))
+            else:
+                c = S.sym_or(a.re < b.re, S.sym_and(a.re == b.re, a.im < b.im))
+            if bool(c):
+                best = i
+        return best
     best = 0
     for i in range(1, len(vals)):
         c = (vals[i] > vals[best]) if is_max else (vals[i] < vals[best])
